@@ -288,3 +288,16 @@ Definition documented_docstring_literals : list (str * str) :=
 Definition docstring_literal_ok (r : str * str) : bool :=
   existsb (fun d => str_eqb (fst d) (fst r) && pat_match (snd d) (snd r)) documented_docstring_literals.
 Definition docstring_literals_ok : bool := forallb docstring_literal_ok gen_docstring_literals.
+
+(* ------------------------------------------------------------------------------------------------ 1c. metadata templates *)
+(* what pyproject.toml / setup.py / README.md / .gitignore may read: the derived names and version (project_name, package_name,
+   package_version = package_version_override or the document's version), the fixed description, and the flavour switches.
+   In particular the version is read ONLY through package_version: a read of openapi.version (or of anything under openapi /
+   config) in a metadata template is outside the frame - it would bypass the override in that flavour. *)
+Definition documented_metadata_vars : list str :=
+  [ s2l "project_name"; s2l "package_name"; s2l "package_version"; s2l "package_description"; s2l "meta"; s2l "poetry" ].
+Definition metadata_reads_ok : bool := forallb (fun r => mem_str (snd r) documented_metadata_vars) gen_metadata_reads.
+(* every flavour's declaration file reads the version, and reads it through package_version *)
+Definition version_declared_ok : bool :=
+  existsb (fun r => str_eqb (fst r) (s2l "pyproject.toml.jinja") && str_eqb (snd r) (s2l "package_version")) gen_metadata_reads &&
+  existsb (fun r => str_eqb (fst r) (s2l "setup.py.jinja") && str_eqb (snd r) (s2l "package_version")) gen_metadata_reads.
